@@ -94,7 +94,7 @@ func hotlineDate(t time.Time) [8]byte {
 var c18LongName = strings.Repeat("N", 255)
 
 func (x *c18World) apply(op string) bool {
-	p := strings.Split(op, ":")
+	p := opSplit(op)
 	var path []string
 	if len(p) > 1 {
 		path = splitPath(p[1])
@@ -122,7 +122,7 @@ func (x *c18World) apply(op string) bool {
 			x.fail("create/request-failed", fmt.Sprintf("%s: %v", op, r))
 		}
 		parent.Kids[p[2]] = &c18Node{Name: p[2], Category: p[0] == "cat", Kids: map[string]*c18Node{}, Arts: map[uint32]*c18Art{}}
-	case "post", "reply":
+	case "post", "reply", "replygone":
 		cat := x.node(path)
 		if cat == nil || !cat.Category {
 			return false
@@ -137,6 +137,35 @@ func (x *c18World) apply(op string) bool {
 				return false
 			}
 			title = "re"
+		} else if p[0] == "replygone" {
+			// a reply to an article that is not there (any more): the client wrote it while somebody deleted the parent.
+			// It is either refused with nothing changed, or kept with the parent it names.
+			v, _ := strconv.Atoi(p[2])
+			parentID = uint32(v)
+			if cat.Arts[parentID] != nil || len(cat.Arts) == 0 {
+				return false
+			}
+			title = "re"
+			id := cl.Req(ref.TPostNewsArt, ref.F(ref.FNewsPath, ref.NewsPathBytes(path...)), ref.F32(ref.FNewsArtID, parentID),
+				ref.FS(ref.FNewsArtTitle, title), ref.FS(ref.FNewsArtDataFlav, "text/plain"), ref.FS(ref.FNewsArtData, body))
+			world.Quiet()
+			r := cl.Reply(id)
+			if r == nil {
+				x.fail("reply-to-missing-article/not-answered", op)
+				break
+			}
+			if r.Err != 0 {
+				break
+			}
+			var maxID uint32
+			for id := range cat.Arts {
+				if id > maxID {
+					maxID = id
+				}
+			}
+			cat.Arts[maxID].Next = maxID + 1
+			cat.Arts[maxID+1] = &c18Art{Title: title, Poster: poster, Body: body, Date: hotlineDate(vrt.Now()), Parent: parentID, Prev: maxID, LinksKnown: true}
+			break
 		} else {
 			switch p[2] {
 			case "small":
@@ -152,6 +181,8 @@ func (x *c18World) apply(op string) bool {
 				title, body = "\tT\nU", "\tDear all,\nthe server moves on Friday.\n"
 			case "leadnl": // text that starts with a line feed
 				title, body = "\nT", "\nHello,\nworld"
+			case "mac": // Mac Roman text, as every classic client sends it: not valid UTF-8
+				title, body = "Caf\x8e", "r\x8esum\x8e \xa5 na\x95ve"
 			}
 		}
 		var maxID uint32
@@ -454,7 +485,7 @@ func c18Exec(hist []string) (res explore.SeqResult) {
 
 func c18Alphabet() []string {
 	return []string{
-		"bundle::B2", "bundle:B1:B3", "cat::C3", "cat:B1:C2", "cat::<<", "bundle:B1:<<", "post:C1:tabnl", "post:C1:leadnl", "post:<<:small",
+		"bundle::B2", "bundle:B1:B3", "cat::C3", "cat:B1:C2", "cat::<<", "bundle:B1:<<", "post:C1:tabnl", "post:C1:leadnl", "post:<<:small", "post:C1:mac", "cat::Caf%8E", "replygone:C1:1",
 		"post:C1:small", "post:C1:empty", "post:C1:long", "post:C1:big", "post:B1/C2:small", "post:B1/C2:long",
 		"reply:C1:1", "reply:C1:2", "reply:B1/C2:1",
 		"delart:C1:1", "delart:C1:2", "delart:C1:3", "delart:B1/C2:1",
@@ -643,4 +674,29 @@ func replayC18(w *explore.Worker, raw json.RawMessage) {
 	for _, v := range res.Violations {
 		w.Violation(v.Signature, v.Detail, 0, r)
 	}
+}
+
+// opSplit splits an operation at ':' and turns %XX into the byte XX: operations are written to replay files as JSON
+// strings, which cannot carry bytes that are not valid UTF-8 (Mac Roman names).
+func opSplit(op string) []string {
+	p := strings.Split(op, ":")
+	for i := range p {
+		p[i] = unescPct(p[i])
+	}
+	return p
+}
+
+func unescPct(s string) string {
+	var b []byte
+	for i := 0; i < len(s); i++ {
+		if s[i] == '%' && i+2 < len(s)+0 && i+3 <= len(s) {
+			if v, err := strconv.ParseUint(s[i+1:i+3], 16, 8); err == nil {
+				b = append(b, byte(v))
+				i += 2
+				continue
+			}
+		}
+		b = append(b, s[i])
+	}
+	return string(b)
 }
